@@ -1,5 +1,6 @@
 """C20 -- the C interface (clause level): null discipline, handle ownership, status mapping, callback adapters."""
 from ..core import *
+from ..inline import inlined_body
 
 EXPLANATION = ("Static MIR rules on crate mla-bindings-c: (R20.1) in every extern \"C\" function (and raw-pointer helpers they call) each dereference / "
                "Box::from_raw / CStr::from_ptr / slice::from_raw_parts of a raw-pointer parameter, and of every pointer loaded through one, is "
@@ -104,7 +105,7 @@ def run(prog, rep, tier):
     rep.floor('R20.extern', len(ext), 13, 'extern "C" functions')
     helpers = [b for b in c.bodies if b.kind != 'Closure' and not (b.abi or '').startswith('C') and any(is_rawptr(b.lty(i)) for i in range(1, b.arg_count + 1))]
     # ---------------- R20.1
-    def prechecked_by_callers(h, pidx):
+    def prechecked_by_callers(h, pidx, depth=0):
         sites = []
         for body in c.bodies:
             for b in body.calls():
@@ -121,6 +122,9 @@ def run(prog, rep, tier):
                 return False
             ptrs = ptr_closure(body, roots)
             if not any(body.edge_dominates((g[0], g[1]), b.idx) for g in null_guards(prog, body, ptrs)):
+                # the caller is itself a private helper that receives the pointer already tested by its own callers
+                if depth < 3 and body in helpers and prechecked_by_callers(body, roots[0], depth + 1):
+                    continue
                 return False
         return True
 
@@ -216,7 +220,7 @@ def run(prog, rep, tier):
             esc = [x for x in body.return_blocks() if x in r]
             rep.ob('R20.2', bool(leaks) and not esc, key, 'box re-leaked on every normal exit' if (leaks and not esc) else
                    'Box::from_raw(%s) can reach a return without Box::leak: the caller-owned object is freed while the caller keeps its handle' % body.lname(B), body.loc(fr.idx))
-    rep.floor('R20.2', n_from_raw, 10, 'Box::from_raw sites')
+    rep.floor('R20.2', n_from_raw, 3, 'Box::from_raw sites')
 
     # ---------------- R20.3 status mapping
     n_res = 0
@@ -267,6 +271,7 @@ def run(prog, rep, tier):
         body = one_body(prog, rep, 'R20.4', 'mla-bindings-c', adt=adt, name=name, trait=tr)
         if body is None:
             continue
+        body = inlined_body(prog, body)    # the status -> io::Result mapping may be a shared private helper
         ind = [b for b in body.blocks if b.term.kind == 'call' and 'indirect' in b.term.callee]
         key = 'R20.4|%s|ok-only-on-status-0' % body.nkey
         if len(ind) != 1:
@@ -274,16 +279,23 @@ def run(prog, rep, tier):
             continue
         cb = ind[0]
         st = cb.term.dest[0]
-        oks = [(b.idx, i, s) for b in body.blocks if not b.cleanup for i, s in enumerate(b.stmts) if s.kind == 'assign' and s.place == (0, ()) and s.rv.r == 'aggregate' and s.rv.j.get('variant') == 'Ok']
-        sws = [b for b in body.blocks if b.term.kind == 'switch' and b.term.discr.place is not None and b.term.discr.place[0] == st]
-        ok = len(sws) == 1 and bool(oks)
+        all_oks = [(b.idx, i, s) for b in body.blocks if not b.cleanup for i, s in enumerate(b.stmts) if s.kind == 'assign' and s.rv.r == 'aggregate' and s.rv.j.get('variant') == 'Ok' and 'Result' in (s.rv.j.get('adt') or '')]
+        oks = [x for x in all_oks if x[2].place == (0, ())]
+        sws = [b for b in body.blocks if b.term.kind == 'switch' and b.term.discr.place is not None and not b.cleanup and
+               (b.term.discr.place[0] == st or (st in origins(body, [b.term.discr.place[0]], through_calls=False).locals and body.dominates(cb.idx, b.idx)))]
+        ok = len(sws) == 1 and bool(all_oks)
         if ok:
             sw = sws[0].term
             zero = [t for v, t in sw.targets if v == 0]
-            ok = len(zero) == 1 and zero[0] != sw.otherwise and not [1 for v, t2 in sw.targets if v != 0 and t2 == zero[0]] and all(body.edge_dominates((sws[0].idx, zero[0]), bb) for bb, _, _ in oks)
-            # non-zero -> Err
-            r = body.reachable(sw.otherwise)
-            ok = ok and not any(bb in r for bb, _, _ in oks)
+            ok = len(zero) == 1 and zero[0] != sw.otherwise and not [1 for v, t2 in sw.targets if v != 0 and t2 == zero[0]]
+            if ok:
+                # some Ok result lies behind the status-0 edge, and none is reachable from any other edge of the status test
+                rz = body.reachable(zero[0])
+                ok = any(bb in rz for bb, _, _ in all_oks)
+                for t2 in set([sw.otherwise] + [t for v, t in sw.targets if v != 0]):
+                    r = reachable_vs(body, t2)      # follows an Err through `?` to the Break arm only
+                    if any(bb in r for bb, _, _ in all_oks):
+                        ok = False
         rep.ob('R20.4', ok, key, 'Ok only on callback status 0; any other status becomes an io::Error' if ok else 'adapter can return Ok although the callback reported a failure', body.loc(cb.idx))
         if name in ('write', 'read', 'seek') and oks:
             # the Ok payload is the out-parameter the callback filled
